@@ -13,7 +13,8 @@
 (*                            busy ids skipped, waiter registered; the     *)
 (*                            reservation BECOMES the queue entry          *)
 (*               Write        writeQuery: the bytes are handed to c.Write  *)
-(*               WriteDead / WriteFail   c.Write fails -> CloseWithErr     *)
+(*               WriteDead / WriteFail   c.Write fails; WriteFailClose:    *)
+(*                            the caller then calls CloseWithErr           *)
 (*               ArmWaiting   c.Write returned (waitingResp CAS +          *)
 (*                            SetReadDeadline); the caller reaches the     *)
 (*                            final select                                 *)
@@ -106,7 +107,7 @@ QAdd(w, c) == [x \in DOMAIN queue \cup {w} |-> IF x = w THEN c ELSE queue[x]]
 QDel(w) == [x \in DOMAIN queue \ {w} |-> queue[x]]
 QLen == Cardinality(DOMAIN queue)
 
-ActivePcs == {"reserved", "started", "registered", "written", "waiting", "unreg"}
+ActivePcs == {"reserved", "started", "registered", "written", "wfailed", "waiting", "unreg"}
 Active == {c \in Callers : pc[c] \in ActivePcs}
 InUse == reserved + QLen                       \* what ReserveNewQuery computes
 Admit == IF "off_by_one" \in DEV THEN InUse <= maxCq ELSE InUse < maxCq
@@ -165,7 +166,7 @@ SkipK == IF "no_skip" \in DEV THEN 0
          ELSE CHOOSE k \in 0..QLen : ~Busy((nextQid + k) % M) /\ \A j \in 0..(k - 1) : Busy((nextQid + j) % M)
 
 Held == IF rd.k = "reply" THEN {rd} ELSE {}
-IsCurrent(s) == pc[s.c] \in {"written", "waiting", "unreg"} /\ gen[s.c] = s.g /\ qid[s.c] = s.wid
+IsCurrent(s) == pc[s.c] \in {"written", "wfailed", "waiting", "unreg"} /\ gen[s.c] = s.g /\ qid[s.c] = s.wid
 
 AddQueue(c) ==
     /\ pc[c] = "started"
@@ -198,9 +199,9 @@ FailTo(c, e) ==
 \* Write on a connection that is already closed
 WriteDead(c) ==
     /\ pc[c] = "registered" /\ netClosed
-    /\ FailTo(c, "write") /\ closed' = TRUE
-    /\ UNCHANGED hist /\ LocalClose
-    /\ UNCHANGED <<cfgv, queue, nextQid, reserved, netClosed, qid, gen, ctxDone, slot, envv, rd, resent, spurious>>
+    /\ pc' = [pc EXCEPT ![c] = "wfailed"] /\ res' = [res EXCEPT ![c] = Err("write")]
+    /\ UNCHANGED hist
+    /\ UNCHANGED <<cfgv, connv, qid, gen, ctxDone, slot, envv, rd, histv>>
 
 \* the pending Write fails (fault, or the connection was closed meanwhile); the server never saw the bytes
 WriteFail(c) ==
@@ -210,9 +211,16 @@ WriteFail(c) ==
         /\ \A r \in net \cup Held : ~(r.c = c /\ r.g = gen[c])
     /\ \/ netClosed /\ UNCHANGED nfault
        \/ ~netClosed /\ nfault < MaxFault /\ nfault' = nfault + 1
-    /\ FailTo(c, "write") /\ closed' = TRUE
-    /\ H([a |-> "WriteFail", c |-> c]) /\ LocalClose
-    /\ UNCHANGED <<cfgv, queue, nextQid, reserved, netClosed, qid, gen, ctxDone, slot, net, nstray, ndup, ncancel, rd, resent, spurious>>
+    /\ pc' = [pc EXCEPT ![c] = "wfailed"] /\ res' = [res EXCEPT ![c] = Err("write")]
+    /\ H([a |-> "WriteFail", c |-> c])
+    /\ UNCHANGED <<cfgv, connv, qid, gen, ctxDone, slot, net, nstray, ndup, ncancel, rd, histv>>
+
+\* ... and the caller closes the connection (CloseWithErr) before it returns the error
+WriteFailClose(c) ==
+    /\ pc[c] = "wfailed"
+    /\ pc' = [pc EXCEPT ![c] = "unreg"] /\ closed' = TRUE
+    /\ LocalClose /\ UNCHANGED hist
+    /\ UNCHANGED <<cfgv, queue, nextQid, reserved, netClosed, qid, gen, res, ctxDone, slot, envv, rd, resent, spurious>>
 
 \* c.Write returned nil; the caller proceeds to its final select
 ArmWaiting(c) ==
@@ -371,7 +379,7 @@ Cancel(c) ==
 
 ------------------------------------------------------------------------------
 CallerStep(c) ==
-    \/ AddQueue(c) \/ EarlyClosed(c) \/ Write(c) \/ WriteDead(c) \/ ArmWaiting(c)
+    \/ AddQueue(c) \/ EarlyClosed(c) \/ Write(c) \/ WriteDead(c) \/ WriteFailClose(c) \/ ArmWaiting(c)
     \/ TakeReply(c) \/ SeeClose(c) \/ SeeCtx(c) \/ DelQueue(c) \/ Return(c)
 
 ReaderStep == ArmIdle \/ Dispatch \/ ReaderClose \/ ReaderDies \/ ConnClose
